@@ -8,7 +8,7 @@
    Sem.eval computes exactly it, with the same fuel. *)
 Require Import Calc.Sem.
 Require Import Calc.Base Calc.Bytecode Calc.Value Calc.FloatText Calc.Ast Calc.Compile Calc.VM
-        Calc.ExprSem Calc.ExprVM Calc.ExprCorrect Calc.ExprTop Calc.ExprAssign Calc.ExprLen Calc.ExprSession.
+        Calc.ExprSem Calc.ExprVM Calc.ExprCorrect Calc.ExprTop Calc.ExprAssign Calc.ExprLen Calc.ExprSession Calc.LExprSem.
 Require Import Lia.
 Open Scope Z_scope.
 
@@ -68,10 +68,10 @@ Definition read_sem (W : world) : world * res value :=
   | l :: rest => ({| w_glob := w_glob W; w_out := w_out W; w_in := rest; w_next := w_next W |}, Ok (VStr l))
   end.
 
-(* a call of a built-in: nm(e) for write, toa, aton; read() *)
+(* a call with one pure argument, or read(): nm(e) for write, toa, aton and for user functions *)
 Definition is_bcall (e : node) : bool :=
   match e with
-  | NCall (NName nm) [a] => match bop_of_name nm with Some _ => pure a | None => false end
+  | NCall (NName nm) [a] => pure a
   | NCall (NName nm) [] => String.eqb nm "read"
   | _ => false
   end.
@@ -114,10 +114,34 @@ Definition cond_res (r : res value) : res bool :=
   | Ok _ => Fail ErrType
   end.
 
-(* Bf: the function values the built-in names were bound to when the session began.  A call nm(e) has
-   the built-in meaning for as long as nm is still bound to Bf nm. *)
+(* Bf: the functions the session knows — ft_val nm is the function value nm was bound to when it was
+   defined (for the built-ins: when the session began); ft_body nm is, for a user function of one
+   parameter whose body is a pure expression over its parameter and the globals, that body.  A call
+   nm(e) has the meaning of the built-in or of the body for as long as nm is still bound to ft_val nm. *)
+Record ftab := { ft_val : string -> value; ft_body : string -> option node }.
+
+(* the value is a function value *)
+Definition is_fun (y : value) : bool := match y with VFun _ _ => true | _ => false end.
+
+(* a body may mention its one parameter *)
+Definition lpure1 (body : node) : bool := lpure [VNil] body.
+
+Lemma lpure_len L1 L2 e : zlen L1 = zlen L2 -> lpure L1 e = lpure L2 e.
+Proof.
+  intros E. revert e. fix IH 1. intros e. destruct e; try reflexivity; cbn [lpure].
+  - rewrite E. reflexivity.
+  - rewrite (IH e1), (IH e2). reflexivity.
+  - rewrite (IH e). reflexivity.
+  - rewrite (IH e1), (IH e2). reflexivity.
+  - rewrite (IH e1), (IH e2), (IH e3). reflexivity.
+  - induction l as [|x r IHr]; [reflexivity|]. cbn [forallb]. rewrite (IH x), IHr. reflexivity.
+Qed.
+
+Lemma height_pos e : (1 <= height e)%nat.
+Proof. destruct e; cbn [height]; lia. Qed.
+
 Section WithB.
-Variable Bf : string -> value.
+Variable Bf : ftab.
 
 (* the meaning of a statement with fuel n: None = out of fuel; the fuel discipline is Sem.eval's *)
 Fixpoint ssem (n : nat) (W : world) (t : node) {struct n} : option (world * res value) :=
@@ -148,16 +172,31 @@ Fixpoint ssem (n : nat) (W : world) (t : node) {struct n} : option (world * res 
       | NCall (NName nm) [e] =>
           match bop_of_name nm with
           | Some b =>
-              if Nat.leb (height e) n' && Nat.leb 2 n' && fun_eqb (gval (w_glob W) nm) (Bf nm) then
+              if Nat.leb (height e) n' && Nat.leb 2 n' && fun_eqb (gval (w_glob W) nm) (ft_val Bf nm) then
                 match den (w_glob W) e with
                 | Ok x => Some (wbump (fst (bop_sem b W x)), snd (bop_sem b W x))
                 | Fail err => Some (W, Fail err)
                 end
               else None
-          | None => None
+          | None =>
+              match ft_body Bf nm with
+              | Some body =>
+                  if lpure1 body && Nat.leb (height e) n' && Nat.leb (height body) n'
+                     && fun_eqb (gval (w_glob W) nm) (ft_val Bf nm) then
+                    match den (w_glob W) e with
+                    | Ok x =>
+                        match lden [x] (w_glob W) body with
+                        | Ok y => if is_fun y then None else Some (wbump W, Ok y)
+                        | Fail err => Some (wbump W, Fail err)
+                        end
+                    | Fail err => Some (W, Fail err)
+                    end
+                  else None
+              | None => None
+              end
           end
       | NCall (NName nm) [] =>
-          if String.eqb nm "read" && Nat.leb 1 n' && fun_eqb (gval (w_glob W) nm) (Bf nm)
+          if String.eqb nm "read" && Nat.leb 1 n' && fun_eqb (gval (w_glob W) nm) (ft_val Bf nm)
           then Some (wbump (fst (read_sem W)), snd (read_sem W)) else None
       | NBlock l =>
           (fix go (l : list node) (W : world) : option (world * res value) :=
@@ -302,12 +341,15 @@ Proof. reflexivity. Qed.
 
 (* the closure table of the definitional semantics holds the built-ins where Bf says *)
 Definition sem_bf (st : sstate) : Prop :=
-  (forall nm b mo id, bop_of_name nm = Some b -> Bf nm = VFun mo id ->
+  (forall nm b mo id, bop_of_name nm = Some b -> ft_val Bf nm = VFun mo id ->
     exists lc ln, assoc_get (s_clos st) id =
       Some {| sc_params := 1; sc_locals := lc; sc_body := bop_node b (NLocal 0 ln); sc_env := None |}) /\
-  (forall mo id, Bf "read" = VFun mo id ->
+  (forall mo id, ft_val Bf "read" = VFun mo id ->
     exists lc, assoc_get (s_clos st) id =
-      Some {| sc_params := 0; sc_locals := lc; sc_body := NRead; sc_env := None |}).
+      Some {| sc_params := 0; sc_locals := lc; sc_body := NRead; sc_env := None |}) /\
+  (forall nm body mo id, bop_of_name nm = None -> ft_body Bf nm = Some body -> ft_val Bf nm = VFun mo id ->
+    exists lc, assoc_get (s_clos st) id =
+      Some {| sc_params := 1; sc_locals := lc; sc_body := body; sc_env := None |}).
 
 Lemma eval_local0 n env st fid x rest ln :
   e_frame env = Some fid -> assoc_get (s_frames st) fid = Some (x :: rest) ->
@@ -361,9 +403,10 @@ Proof.
   { intros Hp H. destruct (Nat.leb_spec (height t) (S n)) as [Hh|Hh]; [|discriminate H].
     injection H as <- <-. exists st. split; [apply eval_pure; assumption|split; reflexivity]. }
   assert (Same : forall st1, s_clos st1 = s_clos st -> sem_bf st1).
-  { intros st1 E. destruct Hbf as [Hb1 Hb2]. split.
+  { intros st1 E. destruct Hbf as [Hb1 [Hb2 Hb3]]. split; [|split].
     - intros nm b mo id H1 H2. rewrite E. exact (Hb1 nm b mo id H1 H2).
-    - intros mo id H2. rewrite E. exact (Hb2 mo id H2). }
+    - intros mo id H2. rewrite E. exact (Hb2 mo id H2).
+    - intros nm body mo id H0 H1 H2. rewrite E. exact (Hb3 nm body mo id H0 H1 H2). }
   destruct t; try (apply Pure; [exact Hw|exact Hs]); try discriminate Hw.
   - (* NIf *)
     cbn [wstmt] in Hw. apply andb_prop in Hw. destruct Hw as [Hc Hb]. cbn [ssem] in Hs. cbn [eval].
@@ -440,9 +483,9 @@ Proof.
       cbn [wstmt is_bcall] in Hw. cbn [ssem] in Hs. rewrite Hw in Hs. cbn [andb] in Hs.
       apply String.eqb_eq in Hw. subst n0.
       destruct (Nat.leb_spec 1 n) as [H1|H1]; [|discriminate Hs]. cbn [andb] in Hs.
-      destruct (fun_eqb (gval (w_glob (wof_s st)) "read") (Bf "read")) eqn:Ef; [|discriminate Hs].
+      destruct (fun_eqb (gval (w_glob (wof_s st)) "read") (ft_val Bf "read")) eqn:Ef; [|discriminate Hs].
       apply fun_eqb_eq in Ef. destruct Ef as [Eg [mo [id Ebf]]]. cbn [wof_s w_glob] in Eg, Hs.
-      destruct (proj2 Hbf mo id Ebf) as [lc Hcl].
+      destruct (proj1 (proj2 Hbf) mo id Ebf) as [lc Hcl].
       destruct n as [|n1]; [lia|].
       change (eval (S (S n1)) (NCall (NName "read") []) env st)
         with (bind (lookup st env (NName "read")) (fun st2 f =>
@@ -468,10 +511,54 @@ Proof.
       * eexists. split; [reflexivity|]. split; reflexivity. }
     { (* nm(e) *)
     cbn [wstmt is_bcall] in Hw. cbn [ssem] in Hs.
-    destruct (bop_of_name n0) as [b|] eqn:Eb; [|discriminate Hw].
+    destruct (bop_of_name n0) as [b|] eqn:Eb.
+    2:{ (* a user function *)
+      destruct (ft_body Bf n0) as [body|] eqn:Ebody; [|discriminate Hs].
+      destruct (lpure1 body) eqn:Hlp; [|discriminate Hs]. cbn [andb] in Hs.
+      destruct (Nat.leb_spec (height a) n) as [Hh|Hh]; [|discriminate Hs]. cbn [andb] in Hs.
+      destruct (Nat.leb_spec (height body) n) as [Hhb|Hhb]; [|discriminate Hs]. cbn [andb] in Hs.
+      destruct (fun_eqb (gval (w_glob (wof_s st)) n0) (ft_val Bf n0)) eqn:Ef; [|discriminate Hs].
+      apply fun_eqb_eq in Ef. destruct Ef as [Eg [mo [id Ebf]]]. cbn [wof_s w_glob] in Eg, Hs.
+      destruct (proj2 (proj2 Hbf) n0 body mo id Eb Ebody Ebf) as [lc Hcl].
+      destruct n as [|n1]; [pose proof (height_pos a); lia|].
+      change (eval (S (S n1)) (NCall (NName n0) [a]) env st)
+        with (bind (eval (S n1) a env st) (fun st' v =>
+                bind (lookup st' env (NName n0)) (fun st2 f =>
+                  match f with
+                  | VFun _ id0 =>
+                      match assoc_get (s_clos st2) id0 with
+                      | None => Done st2 (Sem.CAbort "no such function")
+                      | Some c =>
+                          if negb (sc_params c =? zlen (rev [v])) then Done st2 (CErr ErrArity)
+                          else
+                            let locals := repeat VNil (Z.to_nat (sc_locals c - sc_params c)) in
+                            let (st3, fid) := new_frame st2 (rev [v] ++ locals) in
+                            catch_return (eval (S n1) (sc_body c) {| e_frame := Some fid; e_closure := sc_env c |} st3)
+                      end
+                  | _ => Done st2 (CErr ErrType)
+                  end))).
+      rewrite (eval_pure a Hw (S n1) env st Hh).
+      destruct (den (s_globals st) a) as [x|err]; cbn [ctl_of bind].
+      - cbn [lookup bind]. fold (gval (s_globals st) n0). rewrite Eg, Ebf, Hcl.
+        cbn [sc_params sc_locals sc_body sc_env rev app zlen List.length Z.of_nat Z.eqb negb].
+        replace (negb (1 =? Pos.of_succ_nat 0)%positive) with false by reflexivity.
+        cbn [new_frame].
+        match goal with |- context [eval _ _ _ ?s0] => set (st3 := s0) end.
+        assert (Hlp' : lpure [x] body = true) by (rewrite (lpure_len [x] [VNil] body eq_refl); exact Hlp).
+        assert (Hfh : frame_holds [x] st3 {| e_frame := Some (s_next st); e_closure := None |}).
+        { right. exists (s_next st), (x :: repeat VNil (Z.to_nat (lc - 1))). split; [reflexivity|]. split.
+          - cbn [st3 s_frames assoc_get]. rewrite Z.eqb_refl. reflexivity.
+          - intros ix Hix. unfold zlen in Hix. cbn [List.length] in Hix. assert (ix = 0) by lia. subst ix. reflexivity. }
+        rewrite (eval_lpure [x] body Hlp' (S n1) _ st3 Hhb Hfh).
+        change (s_globals st3) with (s_globals st).
+        destruct (lden [x] (s_globals st) body) as [y|err]; cbn [ctl_of catch_return].
+        + destruct (is_fun y); [discriminate Hs|]. injection Hs as <- <-.
+          exists st3. split; [reflexivity|]. split; reflexivity.
+        + injection Hs as <- <-. exists st3. split; [reflexivity|]. split; reflexivity.
+      - injection Hs as <- <-. exists st. split; [reflexivity|split; reflexivity]. }
     destruct (Nat.leb_spec (height a) n) as [Hh|Hh]; [|discriminate Hs].
     destruct (Nat.leb_spec 2 n) as [H2|H2]; [|discriminate Hs]. cbn [andb] in Hs.
-    destruct (fun_eqb (gval (w_glob (wof_s st)) n0) (Bf n0)) eqn:Ef; [|discriminate Hs].
+    destruct (fun_eqb (gval (w_glob (wof_s st)) n0) (ft_val Bf n0)) eqn:Ef; [|discriminate Hs].
     apply fun_eqb_eq in Ef. destruct Ef as [Eg [mo [id Ebf]]]. cbn [wof_s w_glob] in Eg, Hs.
     destruct (proj1 Hbf n0 b mo id Eb Ebf) as [lc [ln Hcl]].
     destruct n as [|[|n2]]; try lia.
